@@ -338,6 +338,8 @@ def run(ctx):
         it = " ".join(chain.text(s[k]) for k in ("c", "inc") if k in s)
         # the loop walks [first iterator parameter, second iterator parameter) upwards, whatever the parameters are called
         itp = [p_["name"] for p_ in chain.params if "iterator" in (p_.get("type") or "") or "__normal_iterator" in (p_.get("type") or "")]
+        if len(itp) < 2 and len(chain.params) == 3:
+            itp = [p_["name"] for p_ in chain.params[:2]]       # the range is (first, last, context) whatever the iterator type is called
         fwd = len(itp) >= 2 and ("++" + itp[0] in it or itp[0] + "++" in it) and itp[1] in it and "--" not in it
         ctx.check(fwd, "chain:forward-order", "loop-shape", chain.loc(L["stmt"]),
                   "actions run in configured order from start to end", "loop header is: " + it)
